@@ -117,8 +117,9 @@ func runC14(c *Ctx) {
 	reachSet := p.moduleReachOpt(entries, false)
 	c.Note("R14a: %d concurrent entry functions, %d module functions reachable", len(entries), len(reachSet))
 	once := p.onceClosures()
-	exceptions := map[string]string{
-		"(*server.Server).startHealthCheck": "initialises the health counters before `go healthCheckLoop` shares them (checked by C20 R20b)",
+	exceptions := map[string]string{}
+	if st := healthStarter(p); st != nil {
+		exceptions[p.FName(st)] = "initialises the health counters before `go healthCheckLoop` shares them (checked by C20 R20b)"
 	}
 	var fns []*ssa.Function
 	for f := range reachSet {
@@ -151,7 +152,7 @@ func runC14(c *Ctx) {
 				c.Pass("R14a", key, p.Pos(a.Instr.Pos()), fmt.Sprintf("mutex held: %v", sortedKeys(held[a.Instr])))
 			case once[fn]:
 				c.Pass("R14a", key, p.Pos(a.Instr.Pos()), "inside a sync.Once.Do closure")
-			case exceptions[p.FName(fn)] != "":
+			case exceptions[p.FName(fn)] != "" && strings.HasPrefix(a.Key, "g:server.health"):
 				c.PassTrivial("R14a", key, p.Pos(a.Instr.Pos()), "exception: "+exceptions[p.FName(fn)])
 			default:
 				c.Fail("R14a", key, p.Pos(a.Instr.Pos()), "package-level variable written without synchronisation from code that runs concurrently for different requests: requests can observe or overwrite each other's state")
@@ -434,19 +435,11 @@ func runC14(c *Ctx) {
 		c.Undecided("R14d", "(*Daemon).Serve", "-", "function not found")
 	}
 	if fn := p.Func("server.(*Server).Close"); fn != nil {
-		var closeCall ssa.Instruction
-		for _, b := range fn.Blocks {
-			for _, in := range b.Instrs {
-				if call, ok := in.(*ssa.Call); ok {
-					if bi, ok := call.Call.Value.(*ssa.Builtin); ok && bi.Name() == "close" {
-						closeCall = call
-					}
-				}
-			}
-		}
+		st := serverCloseSteps(p, fn)
+		closeCall := st.sigSite
 		ok := closeCall != nil
-		for _, tc := range p.callsIn(fn, "(io.Closer).Close", "(token.Token).Close") {
-			if closeCall != nil && reachableAfter(fn, tc, closeCall, nil, nil) {
+		for _, tc := range st.tokSites {
+			if closeCall != nil && (tc == closeCall || reachableAfter(fn, tc, closeCall, nil, nil)) {
 				ok = false
 			}
 		}
